@@ -244,7 +244,7 @@ Section Blocked.
     eapply hoare_bind with (Q1 := fun _ => Blk); [apply hoare_gets; auto|]. intros od1.
     eapply hoare_bind with (Q1 := fun _ => Blk); [apply hoare_gets; auto|]. intros odd.
     eapply hoare_bind with (Q1 := fun _ => Blk).
-    { destruct odd; [apply inv_hoare_true; inv_deep Blkf | apply hoare_ret; auto]. }
+    { destruct odd; apply inv_hoare_true; inv_deep Blkf. }
     intros dvi1.
     eapply hoare_bind with (Q1 := fun _ => Blk); [apply inv_hoare_true; inv_deep Blkf|]. intros sh.
     match goal with |- hoare _ (if ?b then _ else _) _ _ => destruct b end; [apply hoare_fail; auto|].
